@@ -133,7 +133,12 @@ pub fn gen_program(seed: u64, prof: &TProfile) -> Program {
         1 => 1,
         _ => 2 + k.below(4) as usize,
     };
-    let n_thr = 2 + k.below(3) as usize;
+    let deep = crate::driver::DEEP.load(std::sync::atomic::Ordering::Relaxed) && k.chance(1, 6);
+    let n_thr = if deep {
+        2 + k.below(4) as usize
+    } else {
+        2 + k.below(3) as usize
+    };
     let mut next_id = 0u128;
     let id_fmt = k.below(3);
     let mut fresh = |w: &mut Rng| {
@@ -170,7 +175,7 @@ pub fn gen_program(seed: u64, prof: &TProfile) -> Program {
     let mut threads: Vec<Vec<Op>> = vec![vec![]; n_thr];
     let mut lens = vec![];
     for _ in 0..n_thr {
-        lens.push(1 + k.below(4) as usize);
+        lens.push(1 + k.below(if deep { 8 } else { 4 }) as usize);
     }
     // first decide op kinds
     let mut kinds: Vec<Vec<usize>> = vec![];
